@@ -28,7 +28,7 @@ Import ListNotations.
 From PV Require Import Base.Num Model.LieGroup Model.LieExp Model.LieLog Model.Spline Model.Metric
   Proofs.LieGroup Proofs.LieLog Proofs.Spline Proofs.Metric
   Proofs.Spline2 Proofs.Spline3 Proofs.Spline4 Proofs.Spline5 Proofs.Metric2 Proofs.Metric3 Proofs.Metric4 Proofs.Metric5 Proofs.Metric6
-  Model.Controller Model.Align Proofs.Align Proofs.Metric7 Proofs.Metric8.
+  Model.Controller Model.Align Proofs.Align Proofs.Metric7 Proofs.Metric8 Proofs.Metric9.
 Local Open Scope R_scope.
 #[local] Remove Hints NumQ NumZ : typeclass_instances.
 
@@ -320,6 +320,25 @@ Theorem C19_rpe_identical_zero_frames : forall eps m2q svdstf st P tr et diff or
             zero_stats s.
 Proof. intros. eapply rpe_identical_zero_frames; eauto using angle_of_id, rad2deg_0. Qed.
 
+(* identical POSES with JITTERED stamps (and an offset): [closest_same_index s2 s1 diff o] = the two stamp
+   vectors have the same length and every s2_i is within diff of s1_i + o and strictly closer to it than to
+   every other s1_j + o.  Then association pairs i with i and all statistics are 0 (rpe: whenever it returns) *)
+Theorem C19_ape_identical_zero_jitter : forall eps m2q svdstf st1 st2 P tr1 tr2 et diff off origin,
+  qv (m2q mid3) = vzero -> mk_stamped st1 P = Some tr1 -> mk_stamped st2 P = Some tr2 ->
+  closest_same_index (map fst tr2) (map fst tr1) diff (- off) -> Forall valid_SE3 P ->
+  exists s, ape sqrt (angle_of eps m2q) rad2deg svdstf st1 P st2 P et diff off false false origin = Some s /\ zero_stats s.
+Proof. intros. eapply ape_identical_zero_jitter; eauto using angle_of_id, rad2deg_0. Qed.
+Theorem C19_rpe_identical_zero_jitter : forall eps m2q svdstf st1 st2 P tr1 tr2 et diff off origin bd delta di rtol all rpair s,
+  qv (m2q mid3) = vzero -> mk_stamped st1 P = Some tr1 -> mk_stamped st2 P = Some tr2 ->
+  closest_same_index (map fst tr2) (map fst tr1) diff (- off) -> Forall valid_SE3 P ->
+  rpe sqrt (angle_of eps m2q) rad2deg svdstf st1 P st2 P et diff off false false origin bd delta di rtol all rpair = Some s ->
+  zero_stats s.
+Proof.
+  intros eps m2q svdstf st1 st2 P tr1 tr2 et diff off origin bd delta di rtol all rpair s Hq H1 H2 Hc HP H.
+  exact (rpe_identical_zero_jitter _ _ svdstf (angle_of_id eps m2q Hq) rad2deg_0 st1 st2 P tr1 tr2 et diff off origin
+           bd delta di rtol all rpair s H1 H2 Hc HP H).
+Qed.
+
 (* partial: identical trajectories with SVD alignment on, GIVEN that the oracle aligns a cloud with itself
    by the identity *)
 Theorem C19_ape_identical_zero_aligned_partial : forall eps m2q svdstf st P tr et diff al sc origin,
@@ -456,6 +475,9 @@ Example C19_ape_rigid_copy_hyps_example :
   unitq (fst (snd S1)) /\ snd (snd S1) = 1 /\ S1 <> Sim3_id /\
   svd_contract svd6r (svdstf_H (map fst (map (align_pose S1) P6)) (map fst P6)).
 Proof. exact rigid_copy_hyps_ok. Qed.
+(* reference stamps [0; 1], estimate stamps [1.1; 1.9], offset -1, max_diff 1/2 *)
+Example C19_jitter_hyps_example : closest_same_index [11 / 10; 19 / 10] [0; 1] (1 / 2) (- (-1)).
+Proof. exact closest_example. Qed.
 Example C19_geodesic_angle_examples :
   geodesic_angle ((1, 0, 0), 0) SO3_id = PI /\ geodesic_angle ((3 / 5, 0, 0), 4 / 5) SO3_id = 2 * atan (3 / 4).
 Proof. exact geodesic_angle_examples. Qed.
@@ -481,6 +503,7 @@ Print Assumptions C19_se3_exp_one_parameter_subgroup. Print Assumptions C19_bspl
 Print Assumptions C19_bspline_SE3_constant_translation.
 Print Assumptions C19_ape_stats_ordered. Print Assumptions C19_rpe_stats_ordered.
 Print Assumptions C19_rpe_left_invariant_origin. Print Assumptions C19_rpe_identical_zero_frames.
+Print Assumptions C19_ape_identical_zero_jitter. Print Assumptions C19_rpe_identical_zero_jitter.
 Print Assumptions C19_ape_identical_zero_aligned_partial. Print Assumptions C19_ape_identical_duplicate_stamps_refuted.
 Print Assumptions C19_ape_similarity_copy_zero. Print Assumptions C19_ape_rigid_copy_zero. Print Assumptions C19_ape_align_invariant_guarded_partial. Print Assumptions C19_ape_align_invariant_nonempty_partial.
 Print Assumptions C19_ape_align_unguarded_contract_forces_identity. Print Assumptions C19_geodesic_is_rotation_angle_all.
